@@ -320,9 +320,58 @@ def rust_part(g):
     g.str_list("rust_manual_ownership", manual, "manual ownership primitives in rust/src")
 
 
+def rust_fn_digests(g):
+    """digest of the normalised text of every Rust function / file residue (tools/rustfns.py); the lemmas of
+    BPT/Generated/TieRust.lean pin each to the text the Lean model was written against"""
+    import json
+    import rustfns
+    fns, residues = rustfns.inventory(REPO)
+    snap_path = os.path.join(os.path.dirname(os.path.abspath(__file__)), "rustfn_snapshot.json")
+    snap = json.load(open(snap_path)) if os.path.exists(snap_path) else {"functions": {}, "residues": {}}
+    for n, d in sorted(fns.items()):
+        g.lines.append("/-- digest of `%s` (%d chars, normalised) -/\ndef rustfn_%s : String := \"%s\"" % (n, len(d["text"]), rustfns.mangle(n), rustfns.digest(d["text"])))
+    for n in sorted(snap["functions"]):
+        if n not in fns:
+            g.missing("rustfn_" + rustfns.mangle(n), "function %s no longer exists" % n)
+    for f, t in sorted(residues.items()):
+        g.lines.append("/-- digest of the items of `%s` outside function bodies -/\ndef rustres_%s : String := \"%s\"" % (f, rustfns.mangle(f), rustfns.digest(t)))
+    # current texts, for the report of a broken tie (a unified diff against the snapshot)
+    cur = os.path.join(os.path.dirname(os.path.abspath(__file__)), "..", "build", "rustfn_current.json")
+    try:
+        os.makedirs(os.path.dirname(cur), exist_ok=True)
+        with open(cur, "w") as f:
+            json.dump({"functions": {n: d["text"] for n, d in fns.items()}, "residues": residues}, f)
+    except OSError:
+        pass
+
+
+def src_fn_digests(g):
+    """the same for every function of the pure-Python map, the C extension and the package wrapper (tools/srcfns.py)"""
+    import json
+    import srcfns
+    inv = dict(srcfns.py_inventory(REPO))
+    inv.update(srcfns.c_inventory(REPO))
+    snap_path = os.path.join(os.path.dirname(os.path.abspath(__file__)), "srcfn_snapshot.json")
+    snap = json.load(open(snap_path)) if os.path.exists(snap_path) else {"functions": {}}
+    for n, t in sorted(inv.items()):
+        g.lines.append("/-- digest of `%s` (%d chars, normalised) -/\ndef srcfn_%s : String := \"%s\"" % (n.replace("-/", "- /"), len(t), srcfns.mangle(n), srcfns.digest(t)))
+    for n in sorted(snap["functions"]):
+        if n not in inv:
+            g.missing("srcfn_" + srcfns.mangle(n), "function %s no longer exists" % n)
+    cur = os.path.join(os.path.dirname(os.path.abspath(__file__)), "..", "build", "srcfn_current.json")
+    try:
+        os.makedirs(os.path.dirname(cur), exist_ok=True)
+        with open(cur, "w") as f:
+            json.dump({"functions": inv}, f)
+    except OSError:
+        pass
+
+
 def main():
     g = Gen()
     rust_part(g)
+    rust_fn_digests(g)
+    src_fn_digests(g)
     try:
         from extract_py import python_part  # noqa
         python_part(g, read, strip_comments)
